@@ -68,6 +68,8 @@ class Hub:
         self.rng = random.Random(seed)
         self.switches = 0
         self.primlog = None          # list: one record per queue primitive / task return (L2)
+        self.scripted = None         # scripted mode (spec -> code at L2): the watched queue; a
+                                     # task stops right after every logged primitive on it
 
     # ---- task management -----------------------------------------------------------
     def spawn(self, fn, *args, name=None, **kwargs):
@@ -103,10 +105,34 @@ class Hub:
             heapq.heappush(self.timers, ent)
         return self.main.switch()
 
+    def after_log(self, rec):
+        """Scripted mode: the task that made a primitive on the watched queue / websocket stops
+        here; the driver decides who runs next (spec -> code replay of a TLC schedule)."""
+        if self.scripted is not None and self.current is not None and \
+                getattr(self.current, 'proc', None) is not None and \
+                (rec['q'] is self.scripted or rec['q'] == 'ws') and rec['op'] != 'task_done':
+            self.yield_now()
+
+    def step(self, task):
+        """Scripted mode: run one task until it stops again (next primitive, block, or end)."""
+        for k, (t, v) in enumerate(self.ready):
+            if t is task:
+                self.ready.pop(k)
+                break
+        else:
+            raise RuntimeError('task %s is not runnable' % task.name)
+        if task.done:
+            return
+        self.current = task
+        task.g.switch(v)
+        self.current = None
+
     def yield_point(self, hold=False):
         """A schedule point that does not block (L2 only).  hold: with probability 1/4 the task
         is not only switched out but held back until every other task is blocked or finished -
         the schedule in which a thread is descheduled for long at exactly this point."""
+        if self.scripted is not None:
+            return
         if self.preempt and self.current is not None:
             r = self.rng.random()
             if hold and r < 0.25:
@@ -257,7 +283,9 @@ class Queue:
     def _log(self, op, item=None):
         lg = _hub.primlog
         if lg is not None:
-            lg.append({'t': getattr(_hub.current, 'proc', None), 'op': op, 'item': item, 'q': self})
+            rec = {'t': getattr(_hub.current, 'proc', None), 'op': op, 'item': item, 'q': self}
+            lg.append(rec)
+            _hub.after_log(rec)
 
     def put(self, item, block=True, timeout=None):
         # the call of put() is a switch point of its own (CPython switches threads at calls):
@@ -266,10 +294,10 @@ class Queue:
         _hub.yield_point(hold=True)
         self.items.append(item)
         self.unfinished_tasks += 1
-        self._log('put', item)
         if self.waiters:
             w = self.waiters.pop(0)
             _hub._make_ready(w, None)
+        self._log('put', item)
         _hub.yield_point()
 
     def put_nowait(self, item):
